@@ -89,8 +89,16 @@ def run(tier, seed, replay_rows=None):
             ck.observe("lifetime-figures-wrong-after-concurrent-snapshots",
                        "after schedule %s the lifetime figures do not cover exactly the recorded durations (%d schedules): %s" % (
                            t["sched"], len(bad2), json.dumps(t["ev"][-3:])), dict(rows=[rows2[j - 1] for j in bad2[:5]]))
+    if replay_rows is None:
+        # the windows inside Add / CollectLifetime that no yield point reaches: free-running recorder vs snapshots,
+        # lifetime figures checked at quiescence after every round
+        vlib.flow(ck, mcs=[], sub="c17stress", trace_module="Trace_Quiescent", trace_cfg="Trace_Quiescent.cfg",
+                  trace_file="c17stress.ndjson", var="l", key_of=lambda r: "lifetime-figures-do-not-cover-everything-recorded@stress",
+                  describe=lambda r: json.dumps(r)[:500], workers=2)
     return ck.finish()
 
 
 def replay(path, seed):
+    if json.load(open(path))["replay"].get("sub") != "c17":
+        return run("quick", seed)          # stress / measurement observations are re-made on the current tree
     return vlib.std_replay(run, path, seed)
